@@ -61,6 +61,10 @@ func genC14Args(r *zsim.Rng, p *sysPlan) {
 	}
 	if r.Chance(1, 6) {
 		add("--gap", pick(r, "1", "2"))
+		if r.Bool() {
+			// the line drawn in the gap: plain, empty, wide, or nothing but colour codes (no width at all)
+			add("--gap-line", pick(r, "-", "", "日本", "\x1b[31m", "\x1b[31m-\x1b[m", "ab\tc"))
+		}
 	}
 	if r.Chance(1, 6) {
 		add("--no-hscroll")
